@@ -1,5 +1,7 @@
 import PyRt
 import Driver.Dispatch
+import Driver.Unicode
+import Driver.Wsgi
 /-!
 Native model driver: one request per line on stdin (`<module>:<function>\t<json args>`),
 one response per line on stdout.  Hand-written handlers for the spec-level models are tried first.
@@ -8,10 +10,18 @@ open Lean
 
 namespace Driver
 
+/-- handlers of the hand-written models (spec level, PyRt built-ins) -/
+def handWritten (target : String) (args : List Json) : Option String :=
+  (Driver.Unicode.handle target args).orElse fun _ =>
+  (Driver.Wsgi.handle target args)
+
 def handleLine (line : String) : String :=
   match Py.Wire.parseLine line with
   | none => "badline"
   | some (target, args) =>
+    match handWritten target args with
+    | some r => r
+    | none =>
     match target.splitOn ":" with
     | [modname, fn] => dispatchGen modname fn args
     | _ => "badtarget"
